@@ -572,6 +572,18 @@ pub fn check(prop: &'static dyn Property, o: &CheckOpts) -> CheckResult {
         .with("evaluations", Json::Int(evals as i128))
         .with("nontrivial", Json::Int(stats.nontrivial as i128))
         .with("distinct_nontrivial", Json::Int(stats.distinct.len() as i128))
+        .with(
+            "distinct_counting",
+            Json::str(&if stats.sample_shift == 0 {
+                "exact: every non-trivial case id was kept".to_string()
+            } else {
+                format!(
+                    "lower bound: the run was long enough that only case ids in one hash class out of {} were kept (exact count within that class; estimated total {})",
+                    1u64 << stats.sample_shift,
+                    (stats.distinct.len() as u64) << stats.sample_shift
+                )
+            }),
+        )
         .with("logical_events", Json::Int(stats.events as i128))
         .with(
             "runs_per_hour",
